@@ -193,7 +193,11 @@ def pyEq : PyVal → PyVal → Bool
        | _, _ => false)
     | _ => false
   | .list _ xs, b => match b.unsub with | .list _ ys => pyEqL xs ys | _ => false
-  | .tuple _ xs, b => match b.unsub with | .tuple _ ys => pyEqL xs ys | _ => false
+  | .tuple _ xs, b =>
+    match b.unsub with
+    | .tuple _ ys => pyEqL xs ys
+    | .inst _ _ c _ vs => c.kind == 2 && pyEqL xs vs      -- a NamedTuple is a tuple
+    | _ => false
   | .set _ xs, b =>
     match b.unsub with
     | .set _ ys => xs.length == ys.length && subsetL xs ys
@@ -204,9 +208,13 @@ def pyEq : PyVal → PyVal → Bool
     | _ => false
   | .just _ x, b => match b.unsub with | .just _ y => pyEq x y | _ => false
   | .nothing, b => match b.unsub with | .nothing => true | _ => false
-  | .inst _ _ c _ vs, b =>
+  | .inst oid _ c _ vs, b =>
     match b.unsub with
-    | .inst _ _ c' _ vs' => c == c' && pyEqL vs vs'
+    | .inst oid' _ c' _ vs' =>
+      if c.kind == 2 then c'.kind == 2 && pyEqL vs vs'   -- tuple equality
+      else if c.kind == 1 then c == c' && pyEqL vs vs'   -- dataclass `__eq__`: same class, equal fields
+      else oid == oid'                                   -- plain object: identity
+    | .tuple _ ys => c.kind == 2 && pyEqL vs ys
     | _ => false
 termination_by structural x => x
 def pyEqL : List PyVal → List PyVal → Bool
